@@ -115,12 +115,12 @@ pub fn plan(quick: bool) -> PairPlan {
     hf.extend(weyl_fracs(if quick { 16 } else { 40 }, 7));
     // mantissas slightly above a power of two (top bits zero, generic tail): products 1.0x * 1.0y
     hf.extend(weyl_fracs(if quick { 12 } else { 32 }, 9).into_iter().map(|f| f >> 6));
-    let gaps: Vec<i32> = if quick { vec![0, 1, 2, 10, 52, 53, 54] } else { vec![0, 1, 2, 3, 10, 30, 52, 53, 54, 200] };
+    let gaps: Vec<i32> = if quick { vec![0, 1, 2, 10, 52, 53, 54] } else { vec![0, 1, 2, 10, 30, 52, 53, 54, 200] };
     let mut lf: Vec<u64> = run_bounded(52, 1);
     lf.push(1);
     lf.push((1u64 << 52) - 2);
     lf.extend(gen_fracs(1));
-    lf.extend(weyl_fracs(if quick { 1 } else { 3 }, 8));
+    lf.extend(weyl_fracs(1, 8));
     let ua = unit_alphabet(&hf, &gaps, &lf, false);
     let ub = unit_alphabet(&hf, &gaps, &lf, true);
     PairPlan {
